@@ -23,7 +23,7 @@ func TestSweep(t *testing.T) {
 		for K := 0; K <= maxK; K++ {
 			for a := 0; a <= K; a++ {
 				for b := a; b <= K; b++ {
-					out = append(out, Win{Kr: K, A: a, B: b})
+					out = append(out, Win{Kr: K, A: a, B: b, Fix: (a + b) % 3})
 					if b < K && C >= 2 {
 						out = append(out, Win{Kr: K, A: a, B: b, Partial: 1})
 					}
